@@ -248,6 +248,49 @@ func enumerate(emit emitFn, thorough bool) {
 	for k := int64(0); k < nrt; k++ {
 		emit("real-ticker", []hx.T{op("ORealTicker", k)}, []string{"real-ticker"})
 	}
+	// the send queue at capacity: the client stops reading, the writer sits in conn.Write with one
+	// entry, a goroutine issues 10026 pushes (9999 fill the queue, the 10001st parks), optionally
+	// a heartbeat send and the owning service (PushMsg to 1 and to a bystander) park too; then
+	// every end cause; afterwards the dead session is pushed to again
+	for v := 0; v < 4; v++ {
+		for _, ca := range causes {
+			ops := append(toWorking(2), op("ODrain"))
+			ops = append(ops, toWorking(1)...)
+			ops = append(ops, op("ODrain"), op("OWstall", 1), op("OFlood", 1, 10026))
+			tags := []string{"queue-full", "cause:" + ca.name}
+			if v&1 != 0 {
+				ops = append(ops, op("OHeartbeat", 1))
+				tags = append(tags, "heartbeat-parked")
+			}
+			if v&2 != 0 {
+				ops = append(ops, op("OPush", []int64{1, 2}))
+				tags = append(tags, "service-parked")
+			}
+			ops = append(ops, ca.ops(1)...)
+			ops = withEpilogue(ops, 1, false)
+			ops = append(ops, op("OPush", []int64{1, 2}), op("ODrain"), op("OClientClose", 2), rel(2), op("ODrain"))
+			emit("queue-full", ops, tags)
+		}
+	}
+	// exactly at the boundary: 9999 / 10000 / 10001 pushes, then kick / nothing
+	for _, n := range []int64{9999, 10000, 10001, 10002} {
+		for _, end := range []bool{false, true} {
+			ops := append(toWorking(1), op("ODrain"), op("OWstall", 1), op("OFlood", 1, n))
+			if end {
+				ops = append(ops, op("OKick", 1), op("ODrain"))
+			}
+			emit("queue-boundary", ops, []string{"queue-boundary"})
+		}
+	}
+	// connChan at capacity: n clients connect to the real acceptor (pomelo.StartAcceptor wiring)
+	// while the owning service is busy; 1 + 99 fit, the 101st parks the accept loop
+	burst := []int64{1, 5, 99, 100, 101, 130}
+	if thorough {
+		burst = append(burst, 2, 98, 102, 200, 250)
+	}
+	for _, n := range burst {
+		emit("accept-burst", []hx.T{op("OBurst", n)}, []string{"accept-burst"})
+	}
 	// a real TCP socket through the real acceptor and pomelo.StartAcceptor
 	for v := int64(0); v <= 5; v++ {
 		for _, k := range []int64{0, 3} {
